@@ -18,12 +18,16 @@ CAT = [[], [(1, 1)], [(1, 1), (2, 2), (3, 3)], [(2, 1), (3, 2), (4, 3)], [(2, 2)
 KEYS = [(1, 1), (1, 2), (2, 1)]
 
 
+DUP = 'dup'      # option: the SAME (query, reference) key occurs twice in one set (pair lists 2 and 4 of the catalogue)
+
+
 def side(choice):
     out = []
     for (q, r), c in zip(KEYS, choice):
         if c is None:
             continue
-        out.append(BionanoAlignment(1, q, r, 0, 0, 0, 0, c == 7, 1.0, '', 1, 1, [BP(BPos(a, 0), BPos(b, 0)) for a, b in CAT[c]]))
+        for ci in ((2, 4) if c == DUP else (c,)):
+            out.append(BionanoAlignment(1, q, r, 0, 0, 0, 0, ci == 7, 1.0, '', 1, 1, [BP(BPos(a, 0), BPos(b, 0)) for a, b in CAT[ci]]))
     return out
 
 
@@ -68,7 +72,7 @@ def check_case(ca, cb, flag, acc):
             if k in m2 and (abs(m1[k].alignment1Coverage - m2[k].alignment2Coverage) > 1e-12 or
                             abs(m1[k].alignment2Coverage - m2[k].alignment1Coverage) > 1e-12):
                 bad('swap-coverages', '%s' % (k,))
-        if ca == cb:
+        if ca == cb and DUP not in ca:
             for row in r.rows:
                 if row.alignment1.alignedPairs and not (row.identity == 1 and row.alignment1Coverage == 1 and row.alignment2Coverage == 1
                                                         and not row.alignment1ExclusivePairs and not row.alignment2ExclusivePairs):
@@ -79,7 +83,7 @@ def check_case(ca, cb, flag, acc):
         if r is not None:
             acc.state((r.overlapping, r.nonOverlapping, r.firstOnly, r.secondOnly, round(r.avgOverlappingIdentity, 6),
                        round(r.avgOverlappingAlignment1Coverage, 6)))
-        if any(a is not None and b is not None and a != b and CAT[a] and CAT[b] for a, b in zip(ca, cb)):
+        if any(a is not None and b is not None and a != b and (a == DUP or b == DUP or (CAT[a] and CAT[b])) for a, b in zip(ca, cb)):
             acc.nontriv((ca, cb, flag))
         for f in found:
             acc.viol(f[0], case, f[1], f[2], f[3])
@@ -110,5 +114,5 @@ class Pairs(core.Layer):
 
 def layers(tier, seed):
     if tier == 'quick':
-        return [Pairs('7-options', [None, 0, 1, 2, 4, 5, 6])]
-    return [Pairs('9-options', [None] + list(range(len(CAT))))]
+        return [Pairs('7-options', [None, 0, 1, 2, 5, 6, DUP])]
+    return [Pairs('10-options', [None] + list(range(len(CAT))) + [DUP])]
